@@ -236,12 +236,19 @@ func checkC13(tier string) int {
 		rule:    "seeded histories with validator sets of skewed power, absent signers, delegation pools of zero/small/dominant size, block-time sequences crossing calculation-cycle and reward-year boundaries (40-day jumps; short years via the close window) until the schedule burns out, and a twin node restarted at random points inside calculation cycles; every block the rewards credited (increments of validator reward chunks and delegator reward balances from the dump) are compared with the amount accounted as consumed, that amount with what was left of the reward year when the cycle began (or the burnout rate capped by the pool), cumulative validator withdrawals with the matured chunks, and the restarted twin's reward event and app hash with the leader's; a case is one block; non-trivial = rewards were credited in the block; distinct by (seed, height, app hash)",
 		assume:  []string{"reward-interval changes by governance are not reachable with the scaled-down genesis (the matured-chunk clause is skipped if interval records exist)"},
 		scripts: []string{"delegation", "valrewards", "transfers", "stakingb"},
-		nhQ:     8, nhT: 50, blQ: 60, blT: 200,
+		nhQ:     8, nhT: 50, blQ: 170, blT: 220,
 		params: func(i int, hseed int64) world.Params {
 			p := world.Params{Frankenstein: 1, NumGenesisVals: 1 + i%5, GenesisPowers: []int64{3000000, 41000000, 3500000, 7000000, 3000001}, RewardInterval: int64(2 + i%3), BlocksPerCycle: int64(4 + i%4)}
 			if i%3 == 2 {
 				p.YearShares = []string{"7000000000000000000000", "300000000000000000000"}
 				p.RewardPoolOLT = "7100000000000000000000"
+			}
+			if i%8 == 5 {
+				// the schedule is over from the first block (the only year is inside its close window) and the
+				// rewards pool holds less than three blocks of the burnout rate
+				p.YearShares = []string{"1000000000000000000000"}
+				p.YearCloseWindow = 3600 * 24 * 400
+				p.RewardPoolOLT = "12000000000000000000"
 			}
 			return p
 		},
